@@ -319,9 +319,15 @@ class Fn:
                 rv = s["rv"]
                 val = None
                 if rv["k"] == "agg" and rv.get("kind") == "adt" and rv.get("variant") is not None:
-                    vi = self._variant_index(rv.get("adt"), rv.get("variant"))
+                    vi = rv.get("vidx") if isinstance(rv.get("vidx"), int) else self._variant_index(rv.get("adt"), rv.get("variant"))
                     if vi is not None:
-                        val = ("v", vi)
+                        # remember what a single payload is known to be (`Poll::Ready(Err(e))`)
+                        inner = None
+                        if len(rv.get("ops", [])) == 1:
+                            src = simple(rv["ops"][0])
+                            if src is not None and src in st:
+                                inner = st[src]
+                        val = ("v", vi, inner)
                 elif rv["k"] == "use":
                     op = rv["op"]
                     if op.get("k") == "const" and op.get("val") in ("true", "false") and op.get("ty") == "bool":
@@ -330,6 +336,13 @@ class Fn:
                         src = simple(op)
                         if src is not None and src in st:
                             val = st[src]
+                        elif src is None:
+                            # `(x as Ready).0` of a value whose payload is known
+                            pl = op_place(op)
+                            if pl is not None and len(pl[1]) == 2 and pl[1][0].startswith("d:") and pl[1][1].startswith("f:0") and pl[0] in st:
+                                b_ = st[pl[0]]
+                                if b_[0] == "v" and len(b_) > 2 and b_[2] is not None and str(b_[1]) == pl[1][0].split(":")[1]:
+                                    val = b_[2]
                 elif rv["k"] == "disc":
                     src = rv.get("p")
                     if src is not None and not src[1] and st.get(src[0], (None,))[0] == "v":
@@ -473,17 +486,38 @@ class Fn:
                 l, proj = info["disc_place"]
                 if proj or l in vol:
                     continue
-                # look through one whole-local move
-                ds = [d for d in self.defs().get(l, []) if d[1] in ("assign", "call", "resume")]
-                for _ in range(3):
-                    if len(ds) == 1 and ds[0][1] == "assign" and ds[0][2]["rv"]["k"] == "use" and op_place(ds[0][2]["rv"]["op"]) is not None and not op_place(ds[0][2]["rv"]["op"])[1]:
-                        l2 = op_place(ds[0][2]["rv"]["op"])[0]
-                        if l2 in vol:
-                            break
-                        ds = [d for d in self.defs().get(l2, []) if d[1] in ("assign", "call", "resume")]
-                        l = l2
-                    else:
+                # look through whole-local moves, `Try::branch(x)` (Continue <-> Ok/Some, Break <-> Err/None) and a payload read
+                # back from a value that was wrapped in this body (`(Poll::Ready(x) as Ready).0`)
+                translate = None
+                whole = lambda loc: [d for d in self.defs().get(loc, []) if d[1] in ("assign", "call", "resume")]
+                ds = whole(l)
+                for _ in range(8):
+                    if len(ds) != 1:
                         break
+                    dsite, kind, st = ds[0]
+                    nxt = None
+                    if kind == "assign" and st["rv"]["k"] == "use" and op_place(st["rv"]["op"]) is not None:
+                        pl = op_place(st["rv"]["op"])
+                        if not pl[1]:
+                            nxt = pl[0]
+                        elif len(pl[1]) == 2 and pl[1][0].startswith("d:") and pl[1][1].startswith("f:0") and pl[0] not in vol:
+                            bds = whole(pl[0])
+                            if len(bds) == 1 and bds[0][1] == "assign" and bds[0][2]["rv"]["k"] == "agg" and len(bds[0][2]["rv"].get("ops", [])) == 1:
+                                ip = op_place(bds[0][2]["rv"]["ops"][0])
+                                if ip is not None and not ip[1]:
+                                    nxt = ip[0]
+                    elif kind == "call":
+                        fnc = st.get("func") or {}
+                        nm = ((fnc.get("fn") or {}).get("def") or "") if fnc.get("k") == "const" else ""
+                        if re.search(r"ops::Try>?::branch$|ops::try_trait::Try::branch$", nm) and st.get("args"):
+                            ap = op_place(st["args"][0])
+                            if ap is not None and not ap[1] and translate is None:
+                                nxt = ap[0]
+                                translate = {"Continue": ("Ok", "Some"), "Break": ("Err", "None")}
+                    if nxt is None or nxt in vol:
+                        break
+                    l = nxt
+                    ds = whole(l)
                 if len(ds) < 2:
                     continue
                 byv = {}
@@ -500,13 +534,29 @@ class Fn:
                         if nm.endswith("FromResidual::from_residual") and re.match(r"^(std|core)::result::Result<", ty):
                             byv.setdefault("Err", []).append(dsite)
                             continue
-                        ok = False
-                        break
+                        byv.setdefault("?", []).append(dsite)      # some other call: any variant
+                        continue
                     if kind != "assign" or st["rv"]["k"] != "agg" or st["rv"].get("kind") != "adt" or st["rv"].get("variant") is None:
+                        if kind == "assign":
+                            byv.setdefault("?", []).append(dsite)  # a value of unknown variant
+                            continue
                         ok = False
                         break
                     byv.setdefault(st["rv"]["variant"], []).append(dsite)
+                if ok and not [k_ for k_ in byv if k_ != "?"]:
+                    ok = False
                 if ok:
+                    if translate:
+                        # present the switch's Continue / Break edges under the names of the variants they stand for
+                        info = dict(info)
+                        e2 = {}
+                        for nm_, tgt in info["edges"].items():
+                            reals = translate.get(nm_, (nm_,))
+                            # (Ok / Some resp. Err / None: keep the spelling that occurs among the definitions, else the first)
+                            hit = [r_ for r_ in reals if r_ in byv] or [reals[0]]
+                            for real in hit:
+                                e2[real] = tgt
+                        info["edges"] = e2
                     fs.append((site, info, l, byv))
             self._enum_flag_switches = fs
         return fs
@@ -1446,10 +1496,16 @@ class DB:
                     break
             if not still_called:
                 if g.raw.get("is_async"):
-                    # the coroutine body goes with its async fn -- unless closures nested in it would lose their parent
+                    # the coroutine body goes with its async fn; closures / async blocks nested in it now belong to the body
+                    # it was spliced into (if that is a single one)
                     cors = [x for x in self.fns.values() if getattr(x, "parent", None) == gid]
-                    if any(getattr(y, "parent", None) == x.id for x in cors for y in self.fns.values()):
-                        continue
+                    kids = [y for x in cors for y in self.fns.values() if getattr(y, "parent", None) == x.id]
+                    if kids:
+                        owners = set(o for o, q in self.inlined if q == gid)
+                        if len(owners) != 1:
+                            continue
+                        for y in kids:
+                            y.parent = list(owners)[0]
                     for x in cors:
                         self.fns.pop(x.id, None)
                 if g.kind == "closure":
